@@ -64,6 +64,9 @@ class YowAuthenticationProtocolLayer(YowProtocolLayer):
         errorType = nodeEntity.getErrorType()
 
         if not errorType:
-            raise NotImplementedError("Unhandled stream:error node:\n%s" % node)
+            # a kind this client has no name for (e.g. system-shutdown) ends the connection like the others: the
+            # application has to hear about it, raising from here (possibly on the handshake thread) would leave the
+            # connection open and unannounced
+            logger.warning("Unknown stream:error kind:\n%s" % node)
 
         self.toUpper(nodeEntity)
